@@ -539,6 +539,12 @@ where
                     err.insert(Value::Null, ctx);
                     value
                 }
+                // `abort` and `return` are not errors: they end the program and are never
+                // captured by the `err` target.
+                Err(
+                    error @ (crate::compiler::ExpressionError::Abort { .. }
+                    | crate::compiler::ExpressionError::Return { .. }),
+                ) => return Err(error),
                 Err(error) => {
                     #[cfg(vrl_verif)]
                     crate::compiler::verif::record_caught_error(&error.to_string());
